@@ -290,9 +290,12 @@ Definition attach_failed (h : nat) (p : purpose) (s : st) : option st :=
   end.
 
 Definition attach_loaded (h : nat) (p : purpose) (s : st) : option st :=
-  match w s with
-  | WRes => attach_failed h p s
-  | WStack l => Some (set_h h (HAtt p l) s)
+  match p with
+  | PCb KEvent => None                      (* events are attached by Wait only *)
+  | _ => match w s with
+         | WRes => attach_failed h p s
+         | WStack l => Some (set_h h (HAtt p l) s)
+         end
   end.
 
 Definition push (h : nat) (p : purpose) (l : list nat) (s : st) : st :=
